@@ -597,7 +597,7 @@ func genC02Probe(g *G) {
 func init() {
 	suites["C02"] = func(g *G) {
 		genC02Probe(g)
-		genC02Parse(g, g.n(250, 6000))
-		genC02Ctor(g, g.n(150, 4000))
+		genC02Parse(g, g.n(600, 6000))
+		genC02Ctor(g, g.n(400, 4000))
 	}
 }
